@@ -800,6 +800,63 @@ impl Connection {
     }
 }
 
+/// Read-only accessors for external runtime monitors. Off by default.
+#[cfg(feature = "verif")]
+impl Connection {
+    pub fn verif_clone(&self) -> Connection {
+        Connection {
+            state: self.state.clone(),
+            send: self.send,
+            builder: PacketBuilder::new(),
+        }
+    }
+    pub fn verif_fingerprint(&self) -> String {
+        format!("{:?}|{:?}", self.state, self.send)
+    }
+    pub fn verif_state_name(&self) -> &'static str {
+        match self.state {
+            State::Unconnected => "Unconnected",
+            State::Connecting => "Connecting",
+            State::Pending(_) => "Pending",
+            State::Online(_) => "Online",
+            State::Disconnected => "Disconnected",
+        }
+    }
+    /// `Some(token)` once the state fixes what the peer must send.
+    pub fn verif_expected_token(&self) -> Option<Option<Token>> {
+        self.state.token().cloned()
+    }
+    pub fn verif_unacked(&self) -> usize {
+        match self.state {
+            State::Online(ref online) => online.resend_queue.len(),
+            _ => 0,
+        }
+    }
+    /// (queued chunks, queued bytes) of the packet under construction.
+    pub fn verif_queued(&self) -> (usize, usize) {
+        match self.state {
+            State::Online(ref online) => {
+                (online.packet.num_chunks as usize, online.packet.data.len())
+            }
+            _ => (0, 0),
+        }
+    }
+    /// (ack, sequence, request_resend) when online.
+    pub fn verif_seq(&self) -> Option<(u16, u16, bool)> {
+        match self.state {
+            State::Online(ref online) => Some((
+                online.ack.to_u16(),
+                online.sequence.to_u16(),
+                online.request_resend,
+            )),
+            _ => None,
+        }
+    }
+    pub fn verif_send_timer(&self) -> Timeout {
+        self.send
+    }
+}
+
 #[cfg(test)]
 mod test {
     use super::Callback;
